@@ -101,6 +101,8 @@ def verify_getter(ex, contract, timeout_ms=30000):
             secs = [c for c in calls if c[0].endswith("SecurityBase.update")]
 
             def ob(cid, goal, props=P):
+                if field in ("_positions", "_outlays", "_values", "_notl_values", "_bidoffers_paid") and "C18" not in props:
+                    props = tuple(props) + ("C18",)          # the histories the reports are built from: a stale or short series here is a wrong report
                 obligs.append(Oblig("%s/%s" % (name, cid), st.pc, goal, "post", props))
 
             if oc.kind != "return":
